@@ -368,11 +368,11 @@ func Font(c *explore.Ctx, o FontOpts) (*sfnt.Font, *FontSpec) {
 	if !o.NoLayout && n >= 3 {
 		var gs, gp, gd int
 		if o.Compact && !o.SubsetOnly {
-			combos := [][3]int{{0, 0, 0}, {1, 0, 1}, {2, 1, 0}, {0, 3, 2}, {3, 2, 0}}
+			combos := [][3]int{{0, 0, 0}, {1, 0, 1}, {2, 1, 0}, {0, 3, 2}, {3, 2, 0}, {4, 0, 1}}
 			k := combos[c.Choose(len(combos), "layout combination")]
 			gs, gp, gd = k[0], k[1], k[2]
 		} else {
-			gs = c.Choose(4, "gsub")
+			gs = c.Choose(5, "gsub")
 			if o.SubsetOnly {
 				gp = c.Choose(2, "gpos")
 			} else {
@@ -390,6 +390,13 @@ func Font(c *explore.Ctx, o FontOpts) (*sfnt.Font, *FontSpec) {
 		case 3:
 			spec.Gsub = "empty"
 			f.Gsub = &gtab.Info{}
+		case 4:
+			// f + i -> fi, ignoring marks (glyph 2 = 'B' is a mark in the GDEF variants)
+			if n >= 6 {
+				spec.Gsub = "ligature 4.1 -marks (f i -> fi)"
+				f.Gsub = simpleInfo("liga", 4, &gtab.Gsub4_1{Cov: coverage.Table{3: 0}, Repl: [][]gtab.Ligature{{{In: []glyph.ID{4}, Out: 5}}}})
+				f.Gsub.LookupList[0].Meta.LookupFlags = gtab.IgnoreMarks
+			}
 		}
 		switch gp {
 		case 1:
